@@ -4,6 +4,7 @@ import Adlt.Sort.Drv
 import Adlt.Chain.Drv
 import Adlt.Buf.Drv
 import Adlt.Ft.Drv
+import Adlt.Net.Drv
 /-! `driver <area>`: reads `case \t implobs` lines on stdin, prints one result line each. -/
 def main (args : List String) : IO UInt32 := do
   let stdin ← IO.getStdin
@@ -15,4 +16,5 @@ def main (args : List String) : IO UInt32 := do
   | ["lm"] => Util.loop stdin Lmk.doLine; return 0
   | ["lw"] => Util.loop stdin Dp.doLineLw; return 0
   | ["ft"] => Util.loop stdin Ftm.doLine; return 0
+  | ["pipe"] => Util.loop stdin Net.doLine; return 0
   | _ => IO.eprintln "usage: driver <area>"; return 2
